@@ -23,6 +23,9 @@ func attachEmbeddings(ctx *Ctx, r *rand.Rand, db *database.Database, flavour str
 	return attachEmbeddingsExtra(ctx, r, db, flavour, nil)
 }
 
+// embRowsKeep: when >= 0, only that many command rows are written (the database has grown since the file was computed).
+var embRowsKeep = -1
+
 // attachEmbeddingsExtra: the word table also holds the keys of `extra` (words no entry contains - a general-purpose word table
 // knows far more words than a command database uses), each with a vector close to that of the database word it maps to, as a
 // synonym or a common misspelling has.
@@ -106,6 +109,9 @@ func attachEmbeddingsExtra(ctx *Ctx, r *rand.Rand, db *database.Database, flavou
 			}
 		}
 		cv = append(cv, spoil(c19Unit(sum, 1)))
+	}
+	if embRowsKeep >= 0 && embRowsKeep < len(cv) {
+		cv = cv[:embRowsKeep] // an embedding file computed before the last entries were added
 	}
 	if os.WriteFile(filepath.Join(dir, "glove.bin"), c19Glove(uint32(len(wl)), wl, vl), 0o644) != nil ||
 		os.WriteFile(filepath.Join(dir, "cmd_embeddings.bin"), c19CmdFile(uint32(len(cv)), 100, cv), 0o644) != nil {
